@@ -4,6 +4,7 @@ package main
 
 import (
 	"go/ast"
+	"go/types"
 	"unicode/utf8"
 
 	"golang.org/x/tools/go/ssa"
@@ -41,6 +42,34 @@ func goValidPath(name string) bool {
 	return true
 }
 
+// ---- path spec functions ----
+
+func pjoin(a, b *Term) *Term {
+	dot := StrLit(".")
+	return Ite(Eq(a, dot), b, Ite(Eq(b, dot), a, StrConcat(a, StrLit("/"), b)))
+}
+
+func under(p, d *Term) *Term {
+	return Or(Eq(d, StrLit(".")), Eq(p, d), StrPrefixOf(StrConcat(d, StrLit("/")), p))
+}
+
+func trimPrefix(s, p *Term) *Term {
+	if p.Op == "str" && p.Str == "" {
+		return s
+	}
+	return Ite(StrPrefixOf(p, s), StrSubstr(s, StrLen(p), Sub(StrLen(s), StrLen(p))), s)
+}
+
+func trimSuffix(s, p *Term) *Term {
+	if p.Op == "str" && p.Str == "" {
+		return s
+	}
+	return Ite(StrSuffixOf(p, s), StrSubstr(s, IntLit(0), Sub(StrLen(s), StrLen(p))), s)
+}
+
+func pdir(p *Term) *Term  { return App("pdir", StringS, p) }
+func pbase(p *Term) *Term { return App("pbase", StringS, p) }
+
 func specLib(e *Engine, env *Env, name string, n *ast.CallExpr) (tv, bool) {
 	argT := func(i int) *Term {
 		v := env.eval(n.Args[i])
@@ -50,17 +79,122 @@ func specLib(e *Engine, env *Env, name string, n *ast.CallExpr) (tv, bool) {
 		}
 		return t
 	}
+	str := types.Typ[types.String]
 	switch name {
 	case "ValidPath", "VP":
 		return tv{validPath(argT(0)), nil}, true
+	case "pjoin":
+		return tv{pjoin(argT(0), argT(1)), str}, true
+	case "under":
+		return tv{under(argT(0), argT(1)), nil}, true
+	case "trimPrefix":
+		return tv{trimPrefix(argT(0), argT(1)), str}, true
+	case "trimSuffix":
+		return tv{trimSuffix(argT(0), argT(1)), str}, true
+	case "pdir":
+		return tv{pdir(argT(0)), str}, true
+	case "pbase":
+		return tv{pbase(argT(0)), str}, true
+	case "replaceAll":
+		return tv{App("replaceAll", StringS, argT(0), argT(1), argT(2)), str}, true
+	case "pclean":
+		return tv{App("pclean", StringS, argT(0)), str}, true
+	case "substr":
+		return tv{StrSubstr(argT(0), argT(1), Sub(argT(2), argT(1))), str}, true
 	}
 	return tv{}, false
 }
 
+// sliceElems reads the elements of a slice whose length is a literal.
+func (x *Exec) sliceElems(st *State, s SliceV) ([]Value, bool) {
+	if !s.Len.IsInt() {
+		return nil, false
+	}
+	n := int(s.Len.Int.Int64())
+	out := make([]Value, n)
+	for i := 0; i < n; i++ {
+		out[i] = readElem(st.heap, s.Elem, s.Ref, Add(s.Off, IntLit(int64(i))))
+	}
+	return out, true
+}
+
 func (x *Exec) stringIntrinsic(fr *Frame, st *State, name string, args []Value, site ssa.Instruction) ([]Value, bool) {
+	t := func(i int) *Term { return args[i].(*Term) }
+	switch name {
+	case "strings.HasPrefix":
+		x.trusted("strings.HasPrefix/HasSuffix/TrimPrefix/TrimSuffix/ContainsRune: SMT-LIB string semantics")
+		return []Value{StrPrefixOf(t(1), t(0))}, true
+	case "strings.HasSuffix":
+		return []Value{StrSuffixOf(t(1), t(0))}, true
+	case "strings.TrimPrefix":
+		x.trusted("strings.HasPrefix/HasSuffix/TrimPrefix/TrimSuffix/ContainsRune: SMT-LIB string semantics")
+		return []Value{trimPrefix(t(0), t(1))}, true
+	case "strings.TrimSuffix":
+		x.trusted("strings.HasPrefix/HasSuffix/TrimPrefix/TrimSuffix/ContainsRune: SMT-LIB string semantics")
+		return []Value{trimSuffix(t(0), t(1))}, true
+	case "strings.Contains":
+		return []Value{StrContains(t(0), t(1))}, true
+	case "strings.ContainsRune":
+		return []Value{StrContains(t(0), mk("str.from_code", StringS, t(1)))}, true
+	case "strings.TrimLeft", "strings.TrimRight":
+		// only single-character cut sets are used: r is s without the leading/trailing run of c
+		x.trusted("strings.TrimLeft/TrimRight with a one-character cutset: result has no leading/trailing c and s = c^k ++ r (resp. r ++ c^k); k uninterpreted")
+		s, c := t(0), t(1)
+		r := App("trim|"+name, StringS, s, c)
+		if name == "strings.TrimLeft" {
+			st.assume(And(StrSuffixOf(r, s), Not(StrPrefixOf(c, r)), Implies(Not(StrPrefixOf(c, s)), Eq(r, s)),
+				Implies(Eq(StrLen(c), IntLit(1)), App("allChar", BoolS, StrSubstr(s, IntLit(0), Sub(StrLen(s), StrLen(r))), c))))
+		} else {
+			st.assume(And(StrPrefixOf(r, s), Not(StrSuffixOf(c, r)), Implies(Not(StrSuffixOf(c, s)), Eq(r, s)),
+				Implies(Eq(StrLen(c), IntLit(1)), App("allChar", BoolS, StrSubstr(s, StrLen(r), Sub(StrLen(s), StrLen(r))), c))))
+		}
+		return []Value{r}, true
+	case "strings.ReplaceAll":
+		x.trusted("strings.ReplaceAll with one-character arguments: uninterpreted + separator lemmas")
+		return []Value{App("replaceAll", StringS, t(0), t(1), t(2))}, true
+	case "path.Join":
+		x.trusted("path.Join: for valid FS paths a, b the result is pjoin(a, b); three-element form per appendix E; otherwise uninterpreted")
+		sv, ok := args[0].(SliceV)
+		if !ok {
+			return nil, false
+		}
+		es, ok := x.sliceElems(st, sv)
+		if !ok {
+			x.fail("path.Join with a non-literal argument list")
+		}
+		switch len(es) {
+		case 2:
+			a, b := es[0].(*Term), es[1].(*Term)
+			return []Value{Ite(And(validPath(a), validPath(b)), pjoin(a, b), App("pathJoin2", StringS, a, b))}, true
+		case 3:
+			a, b, c := es[0].(*Term), es[1].(*Term), es[2].(*Term)
+			if a.Op == "str" && a.Str == "/" {
+				// Join("/", root, name) with root "" or valid, name valid
+				rootOrDot := Ite(Eq(b, StrLit("")), StrLit("."), b)
+				j := pjoin(rootOrDot, c)
+				good := And(Or(Eq(b, StrLit("")), validPath(b)), validPath(c))
+				return []Value{Ite(good, Ite(Eq(j, StrLit(".")), StrLit("/"), StrConcat(StrLit("/"), j)), App("pathJoin3", StringS, a, b, c))}, true
+			}
+			return []Value{App("pathJoin3", StringS, a, b, c)}, true
+		}
+		x.fail("path.Join with %d arguments", len(es))
+	case "path.Dir":
+		x.trusted("path.Dir/Base/Split: uninterpreted pdir/pbase + lemma library")
+		return []Value{pdir(t(0))}, true
+	case "path.Base":
+		x.trusted("path.Dir/Base/Split: uninterpreted pdir/pbase + lemma library")
+		return []Value{pbase(t(0))}, true
+	case "path.Split":
+		x.trusted("path.Dir/Base/Split: uninterpreted pdir/pbase + lemma library")
+		p := t(0)
+		dir := App("psplitdir", StringS, p)
+		base := App("psplitbase", StringS, p)
+		st.assume(And(Eq(StrConcat(dir, base), p), Not(StrContains(base, StrLit("/"))), Or(Eq(dir, StrLit("")), StrSuffixOf(StrLit("/"), dir))))
+		return []Value{dir, base}, true
+	case "path.Clean":
+		x.trusted("path.Clean: uninterpreted pclean + lemma library")
+		return []Value{App("pclean", StringS, t(0))}, true
+	}
 	return nil, false
 }
 
-func (x *Exec) syncMapIntrinsic(fr *Frame, st *State, fn *ssa.Function, name string, args []Value, site ssa.Instruction, k cont) int {
-	return 0
-}
